@@ -29,6 +29,9 @@ FINDINGS = {
                                                  "0..64; the next block is written over the start of the file",
     "C25-failed-create-bricks-swamp": "a failed header/name write in createNewFile leaves a short file that can neither be opened nor is "
                                       "recreated: every later Write is dropped",
+    "C25-failed-create-drops-batch": "when createNewFile fails (header/name write error) ensureWriter returns the error, chronicler.Write logs it and "
+                                     "returns: the whole batch is dropped although the swamp already took it off its write queue; the next "
+                                     "batch recreates the file and is stored",
     "C25-fsync-error": "an fsync error made data unreadable",
     "C25-unexplained-loss": "records missing after a fault-free run",
 }
@@ -50,13 +53,15 @@ def spec_scan(ops, impl):
         elif f[0] == "act" and f[1] == "load":
             got = impl[i].split(" ")[1] if " " in impl[i] else "?"
             if got != S.fmt_state(spec):
-                bad.append((i, "after the fault cleared and Sync+Close succeeded the load returns %s; written: %s" % (got, S.fmt_state(spec))))
+                bad.append((i, "after the fault cleared and Sync+Close succeeded the load returns %s; written: %s" % (got, S.fmt_state(spec)), "loss"))
     return bad
 
 
+CLASSES = {}   # every C25 finding is about the same clause: records missing after the fault cleared
+
+
 def spec_violated(rep):
-    bad = spec_scan(rep["ops"], rep["impl"])
-    return bad[0][1] if bad else None
+    return S.first_relevant(rep, spec_scan, K.known_ids("C25"), CLASSES)
 
 
 def run(ctx):
@@ -79,9 +84,9 @@ def run(ctx):
     K.report_mismatch(ctx, spec_violated)
     bad = spec_scan(c.ops, c.impl) if not c.err else []
     mism = set(c.mismatch)
-    unflagged = [(i, why) for i, why in bad if i not in mism and not (i < len(c.flags) and c.flags[i])]
+    unflagged = [h for h in S.relevant_hits(bad, c.flags, K.known_ids("C25"), CLASSES, -1) if h[0] not in mism]
     if unflagged:
-        i, why = unflagged[0]
+        i, why, _ = unflagged[0]
         rep = K.case_replay(c, K.case_of(c, i), upto=i)
         rep.update({"correspondence": "C25", "oracle": "spec_scan", "violations": len(unflagged)})
         ctx.violation("implementation violates the property (not predicted by the model): " + why, rep, tag="spec")
